@@ -256,6 +256,20 @@ fn random_perturb(rng: &mut Rng) -> Vec<PlanItem> {
 /// and cut into batches; every batch is one process with 1–4 simulated threads; every job is
 /// measured and at the same time is "earlier work" for the jobs after it.
 pub fn build_scenarios(seed: u64, programs: &[Program], configs: &[usize], rng: &mut Rng) -> Vec<C12Scenario> {
+    // program index -> index of the program with the same files and the other annotate value
+    let mut by_text: BTreeMap<String, Vec<usize>> = BTreeMap::new();
+    for (i, p) in programs.iter().enumerate() {
+        let mut q = p.clone();
+        q.annotate = false;
+        by_text.entry(program_key(&q)).or_default().push(i);
+    }
+    let mut twins: BTreeMap<usize, usize> = BTreeMap::new();
+    for v in by_text.values() {
+        if v.len() == 2 && configs[v[0]] > 0 && configs[v[1]] > 0 {
+            twins.insert(v[0], v[1]);
+            twins.insert(v[1], v[0]);
+        }
+    }
     let mut evals: Vec<usize> = vec![];
     for (pi, &k) in configs.iter().enumerate() {
         for _ in 0..k {
@@ -293,6 +307,27 @@ pub fn build_scenarios(seed: u64, programs: &[Program], configs: &[usize], rng: 
         let mut k = 0;
         while k < batch.len() {
             let concurrent = nthreads >= 2 && batch.len() - k >= 2 && rng.chance(1, 3);
+            // "twin" round: the same sources on two or three threads at once — with the other
+            // annotate value when the pool has that program, else the very same job twice
+            if concurrent && rng.chance(1, 3) {
+                let p = batch[k];
+                let twin = twins.get(&p).cloned().unwrap_or(p);
+                let n = (rng.range(2, nthreads as u64) as usize).min(3);
+                let mut ts: Vec<usize> = (0..nthreads).collect();
+                rng.shuffle(&mut ts);
+                let mut jobs = vec![];
+                for q in 0..n {
+                    let which = if q % 2 == 0 { p } else { twin };
+                    let li = *idx_of.entry(which).or_insert_with(|| {
+                        local.push(which);
+                        local.len() - 1
+                    });
+                    jobs.push(Job { thread: ts[q], program: li, measured: true, perturb: random_perturb(rng) });
+                }
+                schedule.push(Round { jobs, interleave_seed: rng.next(), switch_permille: *rng.pick(&[20, 100, 300, 1000]) });
+                k += 1;
+                continue;
+            }
             if concurrent {
                 let n = (rng.range(2, nthreads as u64) as usize).min(batch.len() - k);
                 let mut ts: Vec<usize> = (0..nthreads).collect();
